@@ -48,6 +48,8 @@ def tyname(t):
         return ("^mut " if t[1] else "^") + tyname(t[2])
     if t[0] == "slice":
         return "[]" + tyname(t[1])
+    if t[0] == "vararg":
+        return "..." + tyname(t[1])
     raise ValueError(t)
 
 
@@ -179,6 +181,8 @@ class Gen:
                 return {"e": "cast", "ty": jty(t), "x": self.expr(src, d + 1)}
         if k < 0.75:
             return {"e": "un", "op": "neg" if t[2] else "bnot", "x": self.expr(t, d + 1)}
+        if k < 0.77 and t == I32 and self.fn_ops and d < 2:
+            return self.vararg_call(d)
         if k < 0.79 and t == I32 and self.fn_ops:
             # a call through a function value: directly, or handed to apply2
             fv = self.expr(FN2)
@@ -558,6 +562,37 @@ class Gen:
                              "tail": {"e": "callv", "x": {"e": "var", "n": "fn"}, "args": [{"e": "var", "n": "a"}, {"e": "var", "n": "b"}]}}})
         return fns
 
+    def vararg_fns(self):
+        """va_sum :: (k: i32, xs: ...i32) -> i32  and  va_mid :: (a: ...i32, flag: bool, b: ...u8) -> i32
+        (a vararg parameter is the sequence of the arguments given for it; possibly empty)"""
+        var = lambda n: {"e": "var", "n": n}
+        blk = lambda ss, tail: {"e": "blk", "label": "", "ss": ss, "tail": tail}
+        k = self.int_lit(I32, self.r.randrange(2, 7))
+        loop = {"s": "while", "label": "", "c": {"e": "bin", "op": "lt", "l": var("i"), "r": {"e": "len", "x": var("xs")}},
+                "body": blk([{"s": "set", "l": {"l": "var", "n": "t"},
+                              "x": {"e": "bin", "op": "add", "l": {"e": "bin", "op": "mul", "l": var("t"), "r": k},
+                                    "r": {"e": "idx", "a": var("xs"), "i": var("i")}}},
+                             {"s": "cset", "op": "add", "l": {"l": "var", "n": "i"}, "x": self.usize_lit(1)}], NONE)}
+        f1 = {"name": "va_sum", "params": [{"n": "k", "ty": I32}, {"n": "xs", "ty": ("vararg", I32)}], "ret": I32,
+              "body": blk([{"s": "let", "n": "t", "x": var("k"), "ty": I32, "mut": True},
+                           {"s": "let", "n": "i", "x": self.usize_lit(0), "ty": ("int", 8, False), "mut": True, "usize": True},
+                           loop], var("t"))}
+        cnt = lambda n: {"e": "cast", "ty": jty(I32), "x": {"e": "len", "x": var(n)}}
+        f2 = {"name": "va_mid", "params": [{"n": "a", "ty": ("vararg", I32)}, {"n": "flag", "ty": BOOL}, {"n": "b", "ty": ("vararg", U8)}], "ret": I32,
+              "body": blk([{"s": "let", "n": "r", "x": self.int_lit(I32, 0), "ty": I32, "mut": True},
+                           {"s": "if", "c": var("flag"), "t": blk([{"s": "set", "l": {"l": "var", "n": "r"}, "x": self.int_lit(I32, 100)}], NONE), "f": NONE}],
+                          {"e": "bin", "op": "add", "l": {"e": "bin", "op": "add", "l": var("r"),
+                                                          "r": {"e": "bin", "op": "mul", "l": cnt("a"), "r": self.int_lit(I32, 10)}},
+                           "r": cnt("b")})}
+        return [f1, f2]
+
+    def vararg_call(self, d):
+        r = self.r
+        pack = lambda t, n: {"e": "arr", "elem": t, "es": [self.expr(t, d + 1) for _ in range(n)], "varargs": True}
+        if r.random() < 0.6:
+            return {"e": "call", "f": "va_sum", "args": [self.expr(I32, d + 1), pack(I32, r.choice([0, 1, 2, 3]))]}
+        return {"e": "call", "f": "va_mid", "args": [pack(I32, r.choice([0, 0, 1, 3])), self.expr(BOOL, d + 1), pack(U8, r.choice([0, 1, 2]))]}
+
     def try_eu_helper(self):
         """try_eu :: (o: bool!i32, d: i32) -> bool!i32 { defer ..; v := o.try; v + d }"""
         return {"name": "try_eu", "params": [{"n": "o", "ty": EU_BI}, {"n": "d", "ty": I32}], "ret": EU_BI,
@@ -863,7 +898,7 @@ class Gen:
         fns.append(self.try_helper())
         fns.append(self.try_eu_helper())
         self.has_try = True
-        fns += self.ptr_helper_fns() + self.slice_helper_fns() + self.fn_value_fns()
+        fns += self.ptr_helper_fns() + self.slice_helper_fns() + self.fn_value_fns() + self.vararg_fns()
         self.fn_ops = ["op_a", "op_b"]
         self.local_fns = []
         self.ptr_helpers = True
@@ -942,11 +977,13 @@ class Render:
                 seq = [cargs[i] if kind == "c" else args[i] for kind, i in e["order"]]
             else:
                 seq = cargs + args
-            return "%s%s(%s)" % (e.get("qual", ""), e["f"], ", ".join(self.expr(a) for a in seq))
+            return "%s%s(%s)" % (e.get("qual", ""), e["f"], ", ".join(x for x in (self.expr(a) for a in seq) if x != ""))
         if k == "idx":
             return "%s[%s]" % (self.expr(e["a"]), self.expr(e["i"]))
         if k == "fld":
             return "%s.%s" % (self.expr(e["x"]), e["f"])
+        if k == "arr" and e.get("varargs"):
+            return ", ".join(self.expr(x) for x in e["es"])       # the arguments given for a vararg parameter
         if k == "arr":
             return "%s.[%s]" % (tyname(tuple(e["elem"])), ", ".join(self.expr(x) for x in e["es"]))
         if k == "rec":
@@ -1101,7 +1138,7 @@ class Render:
 def strip(x):
     """the abstract syntax without the renderer's annotations (types of lets / prints etc.)"""
     if isinstance(x, dict):
-        return {k: strip(v) for k, v in x.items() if k not in ("ty", "mut", "flat", "elem", "usize", "ret", "kind", "text", "plain", "sty", "order", "auto", "m", "char", "tychar", "inline", "lambda", "local", "comptime", "qual", "file", "tytext")
+        return {k: strip(v) for k, v in x.items() if k not in ("ty", "mut", "flat", "elem", "usize", "ret", "kind", "text", "plain", "sty", "order", "auto", "m", "char", "tychar", "inline", "lambda", "local", "comptime", "qual", "file", "tytext", "varargs")
                 or (k == "ty" and x.get("e") in ("int", "cast", "rec", "type"))}
     if isinstance(x, (list, tuple)):
         return [strip(v) for v in x]
